@@ -418,7 +418,19 @@ def lex_inside_filter(l: Lexer) -> Optional[StateFn]:  # noqa: D103, PLR0915, PL
 
         l.backup()
 
-        if l.accept("&&"):
+        # A function name is a name followed by an opening parenthesis, even if
+        # it starts with `true`, `false` or `null`.
+        func_match = RE_FUNCTION_NAME.match(l.query, l.pos)
+
+        if func_match and l.query.startswith("(", func_match.end()):
+            l.pos = func_match.end()
+            # Keep track of parentheses for this function call.
+            l.func_call_stack.append(1)
+            l.emit(TokenType.FUNCTION)
+            l.bracket_stack.append(("(", l.pos))
+            l.next()
+            l.ignore()  # ignore LPAREN
+        elif l.accept("&&"):
             l.emit(TokenType.AND)
         elif l.accept("||"):
             l.emit(TokenType.OR)
@@ -432,13 +444,6 @@ def lex_inside_filter(l: Lexer) -> Optional[StateFn]:  # noqa: D103, PLR0915, PL
             l.emit(TokenType.FLOAT)
         elif l.accept_match(RE_INT):
             l.emit(TokenType.INT)
-        elif l.accept_match(RE_FUNCTION_NAME) and l.peek() == "(":
-            # Keep track of parentheses for this function call.
-            l.func_call_stack.append(1)
-            l.emit(TokenType.FUNCTION)
-            l.bracket_stack.append(("(", l.pos))
-            l.next()
-            l.ignore()  # ignore LPAREN
         else:
             l.error(f"unexpected filter selector token {c!r}")
             return None
